@@ -199,9 +199,15 @@ fn main() {
             let want = if n < a.args.len() { ArgumentType::Register(sc(&a.args[n])) } else { ArgumentType::Stack(a.stack_first + (a.word / 8) * (n - a.args.len())) };
             let got = cc.argument_type(n);
             if got != want {
-                let op = if n < a.args.len() { "abi_args" } else if n == a.args.len() && matches!(got, ArgumentType::Stack(_)) { "stack_first" } else if matches!(got, ArgumentType::Stack(_)) { "stack_args" } else { "abi_args" };
-                report!(op, a.name, format!("calling_convention().argument_type({})", n), format!("{:?}", got), format!("{:?}", want),
-                    ["new", "argument_type", "lemma_abi_args", "lemma_stack_args", "lemma_stack_first", "calling_convention"]);
+                let op = if n < a.args.len() { "abi_args" } else if let ArgumentType::Stack(o) = got {
+                    if o.wrapping_sub(cc.stack_argument_offset()) == (a.word / 8) * (n - a.args.len()) { "stack_first" } else { "stack_args" }
+                } else { "abi_args" };
+                let rel: [&str; 4] = match op {
+                    "abi_args" => ["new", "argument_type", "lemma_abi_args", "calling_convention"],
+                    "stack_first" => ["new", "argument_type", "lemma_stack_first", "calling_convention"],
+                    _ => ["new", "argument_type", "lemma_stack_args", "calling_convention"],
+                };
+                report!(op, a.name, format!("calling_convention().argument_type({})", n), format!("{:?}", got), format!("{:?}", want), rel);
             }
         }
         evals += 1;
@@ -306,10 +312,10 @@ fn main() {
                 let ar = elf.architecture();
                 let got = format!("{} {:?} {}", ar.name(), ar.endian(), ar.word_size());
                 let want = format!("{} {} {}", name, if big { "Big" } else { "Little" }, if class64 { 64 } else { 32 });
-                if got != want { report!("elf_architecture", name, format!("Elf::new(header e_machine={} class64={} big={}).architecture()", machine, class64, big), got, want, ["endian", "word_size", "name"]); }
+                if got != want { report!("elf_architecture", name, format!("Elf::new(header e_machine={} class64={} big={}).architecture()", machine, class64, big), got, want, ["new", "elf_new", "endian", "word_size", "name"]); }
             }
-            Ok(Err(e)) => { report!("elf_architecture", name, format!("Elf::new(header e_machine={} class64={} big={})", machine, class64, big), format!("Err({})", e), name, ["endian"]); }
-            Err(_) => { report!("elf_architecture", name, format!("Elf::new(header e_machine={})", machine), "panic", name, ["endian"]); }
+            Ok(Err(e)) => { report!("elf_architecture", name, format!("Elf::new(header e_machine={} class64={} big={})", machine, class64, big), format!("Err({})", e), name, ["new", "elf_new", "endian"]); }
+            Err(_) => { report!("elf_architecture", name, format!("Elf::new(header e_machine={})", machine), "panic", name, ["new", "elf_new", "endian"]); }
         }
     }
 
